@@ -1018,6 +1018,9 @@ func (d *c16Drv) line(w []string) string {
 		}
 		return "RESOLVE " + d.fileIndex(id.String())
 	}
+	if r, ok := d.c16bLine(w); ok { // zz_verif_c16b_test.go: sender modes, 'sys', faults, ageing
+		return r
+	}
 	return d.hist(w)
 }
 
